@@ -297,6 +297,22 @@ def wheel_tags(timeout_ms=None):
     return rep
 
 
+def atom_versions(timeout_ms=None):
+    """C02, version-valued atoms: the merge logic of _merge_single_markers / _merge_python_version_single_markers over abstract specifier views"""
+    from pyvc import extract, verify
+    from pyvc.theories.atoms import AtomTheory
+    from contracts import atoms as C
+    ix = extract.Index()
+    th = AtomTheory(ix)
+    th.norm_contract = C.NormalizeAtCallSite(th)
+    cs = {C.FromSpecifierAtCallSite.target: C.FromSpecifierAtCallSite(th), C.NormalizeAtCallSite.target: th.norm_contract}
+    mv = C.MergeVersion(th)
+    rep = verify.verify_cases(ix, th, mv.key, list(mv.cases(th)), use_contracts=list(cs), contracts=cs, timeout_ms=timeout_ms)
+    rep.functions[mv.key]["hash"] = ix.func(mv.target).source_hash()
+    rep.functions[mv.key]["mode"] = "verified against its contract"
+    return rep
+
+
 # ---------------------------------------------------------------- C10
 MEMO_WHITELIST = {
     # lazy cache of MarkerExpression: only read through `specifier`, which fills it from _get_specifier() (a function of the compared
